@@ -132,7 +132,9 @@ func openReal(d stubDialector, s *Store, cfg *gorm.Config) *gorm.DB {
 	}
 	cfg.Logger = stubLogger{}
 	cfg.DisableAutomaticPing = true
-	cfg.NamingStrategy = stubNamer{}
+	if cfg.NamingStrategy == nil {
+		cfg.NamingStrategy = stubNamer{}
+	}
 	cfg.ConnPool = OpenPool(s)
 	db, err := gorm.Open(d, cfg)
 	if err != nil {
